@@ -93,3 +93,46 @@ Definition format_line (indent line : str) : str :=
   if only_breaks line then indent ++ SEMI :: line else indent ++ SEMI :: 32 :: line.
 Definition format_value (c : comment) : list str := map (format_line (c_indent c)) (c_lines c).
 Definition raw_text_of (c : comment) : str := concat (format_value c).
+
+(* ---- histories on one entry / posting: every mutator that touches the meta block or the inputs of the
+   rule. Python `raise` = Err with the state written so far (none of these writes before it raises). *)
+Inductive hop :=
+| HSetItem (k : Z)                       (* parent.meta[key] = value *)
+| HAppendRaw (it : item)                 (* raw_meta.append(node) / raw_meta_with_comments.append(comment) *)
+| HInsertRaw (index : Z) (it : item)     (* raw_meta.insert(index, node) *)
+| HDelKey (k : Z)                        (* del parent.meta[key]: first item with that key; KeyError *)
+| HPop                                   (* parent.meta.pop(): the last meta item; IndexError *)
+| HClear                                 (* parent.meta.clear(): drop_many(_raw_indexes): comments stay *)
+| HSetIndentBy (s : str)                 (* parent.indent_by = s *)
+| HSetIndent (s : str).                  (* posting.indent = s (entries have no indent: not generated) *)
+
+(* del: for i, item in enumerate(self): if item.key == index: return super().__delitem__(i) *)
+Fixpoint del_key (k : Z) (l : list item) : list item :=
+  match l with
+  | [] => []
+  | IMeta i k' :: r => if k' =? k then r else IMeta i k' :: del_key k r
+  | IComment i :: r => IComment i :: del_key k r
+  end.
+(* pop(-1): raw_index = _raw_indexes[-1] *)
+Fixpoint del_last_meta (l : list item) : list item :=
+  match l with
+  | [] => []
+  | it :: r => if is_meta it && negb (existsb is_meta r) then r else it :: del_last_meta r
+  end.
+
+Definition hstep (p : parent) (o : hop) : parent * res unit :=
+  match o with
+  | HSetItem k => (setitem p k, Ok tt)
+  | HAppendRaw it => (append_raw p it, Ok tt)
+  | HInsertRaw n it => (insert_raw p n it, Ok tt)
+  | HDelKey k => if has_key k (p_items p) then (with_items p (del_key k (p_items p)), Ok tt) else (p, Err KeyError)
+  | HPop => if existsb is_meta (p_items p) then (with_items p (del_last_meta (p_items p)), Ok tt)
+            else (p, Err IndexError)
+  | HClear => (with_items p (filter (fun it => negb (is_meta it)) (p_items p)), Ok tt)
+  | HSetIndentBy s => (mkparent (p_indent p) s (p_items p), Ok tt)
+  | HSetIndent s => (mkparent (match p_indent p with Some _ => Some s | None => None end)
+                              (p_indent_by p) (p_items p), Ok tt)
+  end.
+
+Fixpoint hrun (p : parent) (ops : list hop) : parent :=
+  match ops with [] => p | o :: r => hrun (fst (hstep p o)) r end.
